@@ -1,4 +1,5 @@
 import datetime
+import os
 
 from six.moves.urllib.parse import quote as url_quote
 
@@ -17,4 +18,8 @@ def format_date(deletion_date):  # type: (datetime.datetime) -> str
 
 
 def format_original_location(original_location):  # type: (str) -> str
-    return url_quote(original_location, '/')
+    try:
+        return url_quote(original_location, '/')
+    except UnicodeEncodeError:
+        # a file name that is not valid UTF-8: escape its original bytes
+        return url_quote(os.fsencode(original_location), '/')
